@@ -208,19 +208,23 @@ def f64_aggregate_ref(kind, vals):
         for x in vals[1:]:
             r = z3.If(z3.fpLT(x, r) if kind == 'Min' else z3.fpGT(x, r), x, r)
         # equal under == (so that -0.0 / +0.0 ties are not over-specified)
-        return cases((finite, OKP(lambda x: z3.fpEQ(x, r), r)), (b_not(finite), ANY))
+        return cases((finite, OKP(lambda x: z3.Or(x == r, z3.fpEQ(x, r)), r)), (b_not(finite), ANY))
     if kind == 'Avg':
         s = vals[0]
         for x in vals[1:]: s = fadd(s, x)
         # sum in argument order divided by n: the statement fixes the mean, not the summation order; accept the
         # left-to-right sum starting from 0.0 or from the first argument (identical for finite values except -0.0)
         r = fdiv(s, fp_const(float(n)))
-        return cases((finite, OKP(lambda x: z3.fpEQ(x, r), r)), (b_not(finite), ANY))
+        s0 = fp_const(0.0)
+        for x in vals: s0 = fadd(s0, x)
+        r0 = fdiv(s0, fp_const(float(n)))
+        return cases((finite, OKP(lambda x: z3.Or(x == r0, x == r, z3.fpEQ(x, r)), r)), (b_not(finite), ANY))
     if kind == 'Med':
         srt = sort_network(vals, lambda x, y: z3.fpLEQ(x, y), lambda c, x, y: z3.If(c, x, y))
-        if n % 2 == 1: r = srt[n // 2]
-        else: r = fdiv(fadd(srt[n // 2], srt[n // 2 - 1]), fp_const(2.0))
-        return cases((finite, OKP(lambda x: z3.fpEQ(x, r), r)), (b_not(finite), ANY))
+        if n % 2 == 1: r = srt[n // 2]; r2 = r
+        else:
+            r = fdiv(fadd(srt[n // 2], srt[n // 2 - 1]), fp_const(2.0)); r2 = fdiv(fadd(srt[n // 2 - 1], srt[n // 2]), fp_const(2.0))
+        return cases((finite, OKP(lambda x: z3.Or(x == r, x == r2, z3.fpEQ(x, r)), r)), (b_not(finite), ANY))
     raise KeyError(kind)
 
 
